@@ -42,8 +42,8 @@ def run(rep: Report) -> None:
             for e in p.events:
                 if e[0] in ("memoised", "extra-attr-store", "net-attr-store"):
                     hidden = e
-            if p.raised:
-                continue
+            if p.raised and "contributes a whole vector" in (p.raised[2] or "") and bad is None:
+                bad = ("SELF", "v", None, [("s", p.raised[2][7:140])])
         for (path, role, var, pos, extra) in ck.support_extras:
             if bad is None:
                 bad = (role, var, pos, extra)
